@@ -74,9 +74,9 @@ def cases(tier):
         out.append(dict(m=m, route=('cfg', 'potable')[i % 2], target='setfl_fs'))
     for m in EK.api_option_models(True):
         for tgt in ('setfl_fs', 'DL_POLY_EAM_fs'):
-            if ('title' in m and tgt == 'setfl_fs') or ('comments' in m and tgt != 'setfl_fs'):
+            if ('title' in m and tgt == 'setfl_fs') or (('comments' in m or 'header_cutoff' in m) and tgt != 'setfl_fs'):
                 continue
-            for route in (('proc',) if ('comments' in m or 'title' in m) else ('cls', 'proc')):
+            for route in (('proc',) if ('comments' in m or 'title' in m or 'header_cutoff' in m) else ('cls', 'proc')):
                 out.append(dict(m=m, route=route, target=tgt))
     for i, m in enumerate(EK.label_models(True, tier)):
         for ti, tgt in enumerate(('setfl_fs', 'DL_POLY_EAM_fs')):
